@@ -209,6 +209,7 @@ func isByteSlice(t types.Type) bool {
 }
 
 func runC10(c *core.Ctx) {
+	checkMemDBResetTotal(c, "C10.reset-discards")
 	checkNewBatchDiscards(c, "C10.discard-leaves-nothing")
 	// ---- tombstones
 	for _, spec := range []struct {
@@ -552,6 +553,7 @@ func recvNamedCI(ci ssa.CallInstruction, name string) bool {
 }
 
 func runC11(c *core.Ctx) {
+	checkThreeWayTestsAlive(c, "C11.sort-comparators-alive", "native/...", "core/store/...", "core/types")
 	checkStateValuesOrderFree(c, "C11.values-order-free")
 	checkLayerMutatorsUnconditional(c)
 	// a failed transaction contributes nothing to the digest: its cache is discarded before the next one runs
